@@ -108,6 +108,14 @@ var universe = []*elem{
 	{name: "ca", src: `#\a`, quick: true, m: &mv{k: "char", s: "a"}},
 	{name: "cA", src: `#\A`, quick: true, m: &mv{k: "char", s: "A"}},
 	{name: "cb", src: `#\b`},
+	// non-ASCII letters in both cases: equalp folds case, equal and sxhash must stay coherent with it
+	{name: "se_lo", src: "(coerce (list (code-char 233) #\\x) 'string)", quick: true},
+	{name: "se_up", src: "(coerce (list (code-char 201) #\\X) 'string)", quick: true},
+	{name: "se_lo2", src: "(coerce (list (code-char 233) #\\x) 'string)"},
+	{name: "ce_lo", src: "(code-char 233)", quick: true},
+	{name: "ce_up", src: "(code-char 201)", quick: true},
+	{name: "lse_lo", src: "(list (coerce (list (code-char 233)) 'string))"},
+	{name: "lse_up", src: "(list (coerce (list (code-char 201)) 'string))"},
 	{name: "nil", src: "nil", quick: true, m: &mv{k: "nil"}},
 	{name: "empty", src: "'()", quick: true},
 	{name: "t", src: "t", quick: true, m: &mv{k: "t"}},
